@@ -57,9 +57,20 @@ RULE = ("cases = one call of da.map_blocks / da.blockwise / da.apply_gufunc desc
         "chunkings, and blockwise 'ij,jk->ik' (concatenate True and False) on all chunkings of (2,2)x(2,2). "
         "non-trivial = some array axis split into >=2 chunks; distinct = distinct case description.")
 ASSUMPTIONS = ["NumPy (slicing, einsum, vectorize) is the reference", "the recording functions are thread safe; sync scheduler, threads for a tenth"]
-BUDGET = {"quick": 60, "thorough": 600}
-FLOORS = {"quick": {"evaluations": 1, "distinct_nontrivial": 1, "counters": {}, "max_skipped_fraction": 0.3},
-          "thorough": {"evaluations": 1, "distinct_nontrivial": 1, "counters": {}, "max_skipped_fraction": 0.3}}
+BUDGET = {"quick": 40, "thorough": 500}
+# measured on the unchanged tree (quick, 5 seeds): 2444 evaluations, ~1850 distinct non-trivial, map_blocks 1212, blockwise 752,
+# gufunc 480, user function calls ~6500, received blocks ~10500-11600, block_id ~2100, block_info ~1970-2200, einsum ~240-270
+FLOORS = {"quick": {"evaluations": 1150, "distinct_nontrivial": 850,
+                    "counters": {"map_blocks_calls": 550, "blockwise_calls": 340, "gufunc_calls": 220, "user_function_calls": 2900,
+                                 "blocks_matched_to_calls": 2400, "received_blocks_checked": 4700, "block_id_checked": 950,
+                                 "block_info_checked": 900, "einsum_compared": 110, "gufunc_outputs_compared": 240,
+                                 "blocks_mismatch_checked": 1000},
+                    "max_skipped_fraction": 0.2},
+          "thorough": {"evaluations": 21000, "distinct_nontrivial": 15000,
+                       "counters": {"map_blocks_calls": 10000, "blockwise_calls": 6000, "gufunc_calls": 4000, "user_function_calls": 55000,
+                                    "received_blocks_checked": 90000, "block_id_checked": 18000, "block_info_checked": 17000,
+                                    "einsum_compared": 2000, "gufunc_outputs_compared": 4500, "blocks_mismatch_checked": 19000},
+                       "max_skipped_fraction": 0.2}}
 EXHAUSTIVE_SPACE = ("map_blocks(block_info, block_id) over all 4x2 chunkings of a (3,2) array x all 2 chunkings of a broadcast (1,2) row; "
                     "blockwise 'ij,jk->ik' with concatenate True/False over all chunkings of two (2,2) arrays with a shared j chunking")
 CLAIM = ("Every call of the recording user functions made by the real map_blocks/blockwise during compute was matched to its output "
@@ -1091,4 +1102,13 @@ def run_case(case, ctx):
             _run_gufunc(case, ctx)
 
 
-CALIBRATION = []
+CALIBRATION = [
+    "block_info[None]['dtype'] is None when only meta= is passed to map_blocks (dask forwards its local dtype variable); the "
+    "statement speaks about locations, so 'dtype' is compared only when dtype= was given.",
+    "calls of the user function made while the graph is built (compute_meta with zero-size inputs when only dtype= is given) are "
+    "not calls per output block: the record is cleared after construction.",
+    "blockwise(align_arrays=False): the declared chunk of a letter is that of the first operand with most blocks, so broadcast "
+    "(length-1) operands are only generated together with align_arrays=True; a broadcast axis is only generated for letters that "
+    "stay in the output (a contracted broadcast axis has no documented meaning).",
+    "labels carry only the keywords that can influence the failing facet (RELEVANT) so that one mechanism gets one label.",
+]
